@@ -267,6 +267,13 @@ def run_variant(src, k, base):
 
 
 def oracle_one(ctx, src, r):
+    """replay: the stored script under the environment variants, twice under the first"""
+    body = src.encode("utf-8", errors="surrogateescape").decode("utf-8", errors="replace")
+    first = run_variant(body, 0, None)
+    for k in (0, 1, 2, 3, 4):
+        res = run_variant(body, k, None)
+        if res != first:
+            return False, f"the same script behaved differently under environment variant {k}: {first!r} vs {res!r}"[:600]
     return True, ""
 
 
